@@ -285,9 +285,11 @@ def psl_families(tier):
 def psl_cases(tier):
     """one case per (family, u in family, mode): u bare (so that subdomains can lie under it) against the
     whole family, each host bare and with a path + query"""
-    for kind, rule, hosts in psl_families(tier):
-        vs = ["http://" + h for h in hosts] + ["http://" + h + "/a?q=1" for h in hosts]
-        for sa in (True, False):
+    # (all suffix-aware cases first: only they need the suffix list inside the driver, and the stream is cut
+    # into contiguous chunks, one driver process each)
+    for sa in (True, False):
+        for kind, rule, hosts in psl_families(tier):
+            vs = ["http://" + h for h in hosts] + ["http://" + h + "/a?q=1" for h in hosts]
             for h in hosts:
                 yield {"u": "http://" + h, "vs": vs, "sa": sa, "psl": kind, "rule": rule}
 
@@ -484,6 +486,12 @@ def canon(op, out):
     return B.canon(op, out)
 
 
+def _psl_op(case):
+    """suffix-aware cases of the corpus / of the public-suffix-list families go through the model with its own
+    split (op lru_pairs_psl); with suffix_aware=False split_suffix is not consulted: op lru_pairs"""
+    return bool(case.get("psl")) and bool(case.get("sa"))
+
+
 def ops(case):
     if case.get("k") == "parse":
         return [o for o, _ in _parse_plan(case)]
@@ -495,8 +503,8 @@ def ops(case):
         pv = B.cparse(v)
         if pv is None:
             return []
-        vs.append(B.parts_json(pv[0], None if case.get("psl") else pv[1]))
-    if case.get("psl"):
+        vs.append(B.parts_json(pv[0], None if _psl_op(case) else pv[1]))
+    if _psl_op(case):
         # no answer of the real split_suffix is shipped: the model splits with its own trie, built from
         # the regenerated list (the file is content-addressed and memoised by the driver)
         return [{"f": "lru_pairs_psl", "rules_file": P.T()["path"], "sa": case["sa"], "u": B.parts_json(pu[0], None), "vs": vs}]
@@ -514,7 +522,7 @@ def impl(case):
     su, cu, lu, lcu = stems_of(case["u"], sa)
     out = []
     hu = spec_host_port(A[1])[0]
-    psl = bool(case.get("psl"))
+    psl = _psl_op(case)
     for v in case["vs"]:
         pv = B.cparse(v)
         V = pv[0]
